@@ -7,10 +7,11 @@ TRUSTED = [
     "Lean 4.33 kernel; axioms per theorem under coverage.axioms (subset of propext, Classical.choice, Quot.sound)",
     "translate/eclio.py; the unformatted codec model of C07 (byte-exact correspondence there, verdict correspondence on mutated files here)",
     "harness/fuzz.cpp built against a second library build with UBSan (-fno-sanitize-recover=all) and -D_GLIBCXX_ASSERTIONS "
-    "(bounds-checked operator[] of vector/string/array); RLIMIT_AS 4 GiB; per-input alarm",
+    "(bounds-checked operator[] of vector/string/array); RLIMIT_AS 4 GiB; per-input alarm; the deck part once more against a third "
+    "library build with AddressSanitizer (no address-space limit there, so the result-file part is not repeated under ASan)",
     "NOT proved: everything past the modelled cores (keyword handlers, EclipseState/Schedule/SummaryConfig construction, the formatted reader, "
-    "boost number parsers) is only exercised by the hardened fuzz run; heap errors that neither UBSan nor the libstdc++ assertions see "
-    "(raw pointer arithmetic) would need ASan, which cannot be combined with the address-space limit",
+    "boost number parsers) is only exercised by the hardened fuzz run; for result FILES heap errors that neither UBSan nor the libstdc++ assertions see "
+    "(raw pointer arithmetic) would need ASan, which cannot be combined with the address-space limit; for DECKS ASan is used",
     "scoping: the documented EXIT1 policy (process exit on a missing INCLUDE file) is turned into THROW_EXCEPTION by the harness",
     "deck-text lexer part: translate/rawconsts.py (separator/quote tables, code keywords), hooks/decktext.patch (add-only wrappers exporting the "
     "anonymous-namespace lexer of Parser.cpp), harness/deck.cpp `corrlex` built against the UBSan/bounds-checked library, the differ; "
@@ -49,6 +50,20 @@ def run(ctx):
         if okd:
             _decktext.corr_with_canon(ctx, exed, label="corr-lexer", mode="corrlex", env=env)
     ctx.stage_property_mode(exe, ["prop", ctx.seed, ctx.tier], env=env, timeout=6000)
+    # third library build with AddressSanitizer: the deck part (fixed probes incl. nested INCLUDE
+    # chains of tiny files, shipped decks, mutated decks) once more, heap errors abort the harness
+    oka, outa = vlib.build_opm(asan=True)
+    if not oka:
+        ctx.tie_broken("build", "AddressSanitizer build of the real code failed:\n" + outa[-3000:])
+    else:
+        okf, exea, outf = vlib.build_harness("fuzz", asan=True)
+        if not okf:
+            ctx.tie_broken("harness", "fuzz harness does not compile against the AddressSanitizer build: " + outf[-2000:])
+        else:
+            ctx.stage_property_mode(exea, ["prop", ctx.seed, ctx.tier], label="prop-asan",
+                                    env={"VERIF_REPO": vlib.REPO,
+                                         "ASAN_OPTIONS": "detect_leaks=0:abort_on_error=1:allocator_may_return_null=1"},
+                                    timeout=6000)
     # deck-text probes that need a time bound of their own (each call in a child under alarm):
     # section-selective parseFile, INCLUDE cycles - see design.d/C20.lexer.md, second round
     okp, exep, outp = vlib.build_harness("deck")
